@@ -504,7 +504,11 @@ std::string handle_inner(std::vector<std::string> const &t)
         return "bad-op";
       if (!src_valid())
         return "invalid";
-      v.push_back(arg());
+      // a value is passed as a prvalue, an aliased argument as the (lvalue) element itself
+      if (src.slot)
+        v.push_back(arg());
+      else
+        v.push_back(int{src.val});
       ref.push_back(rarg());
     }
     else if (op == "pop" && t.size() == 2)
@@ -521,7 +525,7 @@ std::string handle_inner(std::vector<std::string> const &t)
         return "bad-op";
       if (!src_valid() || pos > sz)
         return "invalid";
-      auto const it = v.insert(v.begin() + pos, arg());
+      auto const it = src.slot ? v.insert(v.begin() + pos, arg()) : v.insert(v.begin() + pos, int{src.val});
       ret = it - v.begin();
       auto const rit = ref.insert(ref.begin() + static_cast<std::ptrdiff_t>(pos), rarg());
       rret = rit - ref.begin();
@@ -534,7 +538,10 @@ std::string handle_inner(std::vector<std::string> const &t)
         return "bad-op";
       if (!src_valid() || pos > sz)
         return "invalid";
-      v.insert(v.begin() + pos, n, arg());
+      if (src.slot)
+        v.insert(v.begin() + pos, n, arg());
+      else
+        v.insert(v.begin() + pos, n, int{src.val});
       ref.insert(ref.begin() + static_cast<std::ptrdiff_t>(pos), n, rarg());
     }
     else if (op == "insr" && t.size() == 5 && range_kind(t[3]))
@@ -632,7 +639,10 @@ std::string handle_inner(std::vector<std::string> const &t)
         return "bad-op";
       if (!src_valid())
         return "invalid";
-      v.resize(n, arg());
+      if (src.slot)
+        v.resize(n, arg());
+      else
+        v.resize(n, int{src.val});
       ref.resize(n, rarg());
     }
     else if (op == "reserve" && t.size() == 3)
